@@ -105,6 +105,95 @@ pub mod fs {
         gated(GateKind::Stat, p, || std::fs::canonicalize(p)).await
     }
 
+    pub async fn symlink_metadata(path: impl AsRef<Path>) -> io::Result<std::fs::Metadata> {
+        let p = path.as_ref();
+        gated(GateKind::Stat, p, || std::fs::symlink_metadata(p)).await
+    }
+    pub async fn read_link(path: impl AsRef<Path>) -> io::Result<PathBuf> {
+        let p = path.as_ref();
+        gated(GateKind::Stat, p, || std::fs::read_link(p)).await
+    }
+    pub async fn hard_link(original: impl AsRef<Path>, link: impl AsRef<Path>) -> io::Result<()> {
+        let (a, b) = (original.as_ref(), link.as_ref());
+        gated(GateKind::Create, b, || std::fs::hard_link(a, b)).await
+    }
+    pub async fn symlink(original: impl AsRef<Path>, link: impl AsRef<Path>) -> io::Result<()> {
+        let (a, b) = (original.as_ref(), link.as_ref());
+        gated(GateKind::Create, b, || std::os::unix::fs::symlink(a, b)).await
+    }
+    pub async fn set_permissions(path: impl AsRef<Path>, perm: std::fs::Permissions) -> io::Result<()> {
+        let p = path.as_ref();
+        gated(GateKind::Write, p, || std::fs::set_permissions(p, perm)).await
+    }
+
+    /// Directory listing: the whole directory is read when the gate fires.
+    pub struct ReadDir {
+        entries: std::collections::VecDeque<io::Result<std::fs::DirEntry>>,
+    }
+    pub struct DirEntry(std::fs::DirEntry);
+    impl DirEntry {
+        pub fn path(&self) -> PathBuf {
+            self.0.path()
+        }
+        pub fn file_name(&self) -> std::ffi::OsString {
+            self.0.file_name()
+        }
+        pub async fn metadata(&self) -> io::Result<std::fs::Metadata> {
+            self.0.metadata()
+        }
+        pub async fn file_type(&self) -> io::Result<std::fs::FileType> {
+            self.0.file_type()
+        }
+    }
+    impl ReadDir {
+        pub async fn next_entry(&mut self) -> io::Result<Option<DirEntry>> {
+            match self.entries.pop_front() {
+                Some(Ok(e)) => Ok(Some(DirEntry(e))),
+                Some(Err(e)) => Err(e),
+                None => Ok(None),
+            }
+        }
+    }
+    pub async fn read_dir(path: impl AsRef<Path>) -> io::Result<ReadDir> {
+        let p = path.as_ref();
+        gated(GateKind::Stat, p, || {
+            let mut v: Vec<io::Result<std::fs::DirEntry>> = std::fs::read_dir(p)?.collect();
+            // directory order is not part of anybody's contract: make it the same in every run
+            v.sort_by_key(|e| e.as_ref().map(|e| e.file_name()).unwrap_or_default());
+            Ok(ReadDir { entries: v.into() })
+        })
+        .await
+    }
+
+    #[derive(Debug, Default)]
+    pub struct DirBuilder {
+        recursive: bool,
+        mode: Option<u32>,
+    }
+    impl DirBuilder {
+        pub fn new() -> Self {
+            Self::default()
+        }
+        pub fn recursive(&mut self, recursive: bool) -> &mut Self {
+            self.recursive = recursive;
+            self
+        }
+        pub fn mode(&mut self, mode: u32) -> &mut Self {
+            self.mode = Some(mode);
+            self
+        }
+        pub async fn create(&self, path: impl AsRef<Path>) -> io::Result<()> {
+            let p = path.as_ref();
+            let mut b = std::fs::DirBuilder::new();
+            b.recursive(self.recursive);
+            if let Some(m) = self.mode {
+                use std::os::unix::fs::DirBuilderExt;
+                b.mode(m);
+            }
+            gated(GateKind::Mkdir, p, || b.create(p)).await
+        }
+    }
+
     #[derive(Clone, Debug, Default)]
     pub struct OpenOptions {
         read: bool,
@@ -113,8 +202,18 @@ pub mod fs {
         truncate: bool,
         create: bool,
         create_new: bool,
+        mode: Option<u32>,
+        custom_flags: Option<i32>,
     }
     impl OpenOptions {
+        pub fn mode(&mut self, mode: u32) -> &mut Self {
+            self.mode = Some(mode);
+            self
+        }
+        pub fn custom_flags(&mut self, flags: i32) -> &mut Self {
+            self.custom_flags = Some(flags);
+            self
+        }
         pub fn new() -> Self {
             Self::default()
         }
@@ -148,14 +247,18 @@ pub mod fs {
             let kind = if writes { GateKind::Create } else { GateKind::Open };
             failed(Gate::new(kind, p.to_path_buf(), None).await)?;
             sim::note_op(kind, p);
-            let f = std::fs::OpenOptions::new()
-                .read(self.read)
-                .write(self.write)
-                .append(self.append)
-                .truncate(self.truncate)
-                .create(self.create)
-                .create_new(self.create_new)
-                .open(p)?;
+            let mut o = std::fs::OpenOptions::new();
+            o.read(self.read).write(self.write).append(self.append).truncate(self.truncate).create(self.create).create_new(self.create_new);
+            {
+                use std::os::unix::fs::OpenOptionsExt;
+                if let Some(m) = self.mode {
+                    o.mode(m);
+                }
+                if let Some(fl) = self.custom_flags {
+                    o.custom_flags(fl);
+                }
+            }
+            let f = o.open(p)?;
             Ok(File::from_parts(f, p.to_path_buf()))
         }
     }
@@ -193,6 +296,27 @@ pub mod fs {
         pub fn options() -> OpenOptions {
             OpenOptions::new()
         }
+        pub async fn create_new(path: impl AsRef<Path>) -> io::Result<File> {
+            let p = path.as_ref();
+            failed(Gate::new(GateKind::Create, p.to_path_buf(), None).await)?;
+            sim::note_op(GateKind::Create, p);
+            Ok(File::from_parts(std::fs::File::create_new(p)?, p.to_path_buf()))
+        }
+        pub fn from_std(std: std::fs::File) -> File {
+            File::from_parts(std, PathBuf::from("(from_std)"))
+        }
+        pub async fn into_std(mut self) -> std::fs::File {
+            std::future::poll_fn(|cx| self.poll_inflight(cx)).await;
+            self.inner.try_clone().expect("dup")
+        }
+        pub async fn try_clone(&self) -> io::Result<File> {
+            Ok(File::from_parts(self.inner.try_clone()?, self.path.clone()))
+        }
+        pub async fn set_permissions(&self, perm: std::fs::Permissions) -> io::Result<()> {
+            failed(Gate::new(GateKind::Write, self.path.clone(), None).await)?;
+            self.inner.set_permissions(perm)
+        }
+        pub fn set_max_buf_size(&mut self, _max: usize) {}
         pub async fn sync_all(&self) -> io::Result<()> {
             failed(Gate::new(GateKind::Sync, self.path.clone(), None).await)?;
             self.inner.sync_all()
